@@ -1,17 +1,14 @@
 #!/bin/bash
 # Run once after a fresh restore, offline. Builds the vendored directory source; everything else is
-# rebuilt by the checks themselves from /repo's working tree.
+# rebuilt by the checks themselves from /repo's working tree (each property in its own .build/work/<ID>).
 set -e
 cd "$(dirname "$0")"
 export CARGO_NET_OFFLINE=true
-mkdir -p .build/logs evidence replays
-python3 tools/mkvendor.py /repo/Cargo.lock .build/vendor
-cat > .build/cargo-config.toml <<'CFG'
-[source.crates-io]
-replace-with = "vendored"
-[source.vendored]
-directory = "/verif/.build/vendor"
-[net]
-offline = true
-CFG
+mkdir -p .build evidence replays
+python3-vt - <<'PY'
+import sys
+sys.path.insert(0, "lib")
+import kani
+kani.ensure_vendor()
+PY
 echo setup ok
